@@ -56,6 +56,9 @@ fn oracle(s: &ProgScene<X>, t: &Trace) -> Vec<Violation> {
                 Ev::Enter { a: 0, cb: Cb::Msg(id), .. } => entered.push(id),
                 _ => {}
             }
+            if !returned.is_empty() {
+                crate::check::oblige("backpressure-bound");
+            }
             let behind = returned.iter().filter(|id| !entered.contains(id)).count();
             if behind > n {
                 out.push(Violation {
@@ -82,6 +85,7 @@ fn oracle(s: &ProgScene<X>, t: &Trace) -> Vec<Violation> {
             }
             // (3) on an unbounded mailbox send never waits: begin and end in the same step
             if let (Mailbox::U, true, Some(o)) = (mb, is_waiting_send(op), rec) {
+                crate::check::oblige("unbounded-send-never-waits");
                 if let Some(e) = o.end {
                     if t.log[o.begin].step != t.log[e].step {
                         out.push(Violation {
@@ -94,6 +98,7 @@ fn oracle(s: &ProgScene<X>, t: &Trace) -> Vec<Violation> {
             }
             // (4) stop never waits for mailbox space
             if let (Op::Stop(_), Some(o)) = (op, rec) {
+                crate::check::oblige("stop-never-waits");
                 if let Some(e) = o.end {
                     if t.log[o.begin].step != t.log[e].step {
                         out.push(Violation {
@@ -219,6 +224,7 @@ pub fn property() -> Property {
     Property {
         id: "C12",
         cases,
+        clauses: &["backpressure-bound", "unbounded-send-never-waits", "stop-never-waits"],
         assumptions: &["'taken out of its mailbox' is observed as handler entry, which happens in the same step as the dequeue"],
     }
 }
